@@ -68,7 +68,11 @@ def mkq(c, kind, name, valid=True, unit=None):
                 unit = min(tab, key=lambda u: abs(math.log(float(tab[u]) / fm)))
             else:
                 unit = AU.SI_UNIT[kind]
-        return getattr(GU, kind)(v / float(spec.SI_TABLE[kind][unit]), unit)
+        try:
+            return getattr(GU, kind)(v / float(spec.SI_TABLE[kind][unit]), unit)
+        except ValueError:
+            # the real class rejects this magnitude (sign-constrained kind): not an input a caller can hold
+            raise sym.PathEnd() from None
     v = c.real(name)
     u = SymUnit(kind, f"u_{name}") if unit is None else unit
     if valid and kind in spec.SIGN:
